@@ -242,9 +242,44 @@ def blank_edged_ignore_entries():
                  c_add([b"."]), c_ls_files(False), c_add([b" cache"]), c_add([b" cache/one.bin"]), c_ls_files(False), c_status()]
 
 
-ORACLE_ONLY = {"newline-names", "invalid-ignore-lines"}
+def inner_slash_ignore_lines():
+    # a line with a slash that is not at its end is still a "directory" line for Goit: text + ".*" with '.' any byte
+    return ID + [W(b".goitignore", b"docs/notes.txt\nout/a\n*.log\n"), W(b"docs/notes.txt", b"1"), W(b"docs/notes.txt.bak", b"2"),
+                 W(b"docs/notesXtxt", b"3"), W(b"docs/keep.md", b"4"), W(b"docs/other.txt", b"5"), W(b"out/a", b"6"), W(b"out/ab", b"7"),
+                 W(b"out/b", b"8"), W(b"x/out/a/deep", b"9"), W(b"a.log", b"l"), W(b"notes.txt", b"n"), c_status(), c_add([b"."]),
+                 c_ls_files(False), c_status(), c_add([b"docs/notes.txt.bak"]), c_add([b"out"]), c_ls_files(False), c_commit(b"c"),
+                 W(b"docs/notes.txt.bak", b"changed"), W(b"docs/keep.md", b"changed"), c_status()]
+
+
+def ignored_name_directory_became_file():
+    # a tracked directory whose NAME an extension entry matches gives way to a plain file of that name
+    return ID + [W(b"out.log/part1", b"1"), W(b"out.log/part2", b"2"), W(b"keep", b"k"), c_add([b"."]), c_commit(b"c1"),
+                 W(b".goitignore", b"*.log\n"), c_status(), Edit("rmtree", b"out.log"), W(b"out.log", b"now a file"), W(b"other.log", b"o"),
+                 c_status(), c_add([b"out.log"]), c_ls_files(False), c_add([b"."]), c_ls_files(False), c_status(),
+                 c_commit(b"c2"), c_status(), c_ls_files(False)]
+
+
+def percent_config_values():
+    return [c_init(), c_config(b"user.name", b"Ann 100% Lee"), c_config(b"user.email", b"a%40b@x.yy"), c_config(b"core.ratio", b"50%"),
+            c_config(b"core.motto", b"%s %d %v %%", glob=True), c_config(b"user.name", b"G %x", glob=True),
+            c_config(b"core.editor", b"vi"), W(b"f", b"1"), c_add([b"f"]), c_commit(b"c1"), c_log(1),
+            c_config(b"core.ratio", b"75%"), W(b"f", b"2"), c_add([b"f"]), c_commit(b"c2"), c_log(2)]
+
+
+def quoting_ignore_lines():
+    return ID + [W(b"a", b"1"), c_add([b"a"]), c_commit(b"c"), W(b".goitignore", b"\\Qbuild(1).tmp\n\\Qabc\n*.log\n"), W(b"b", b"2"), W(b"x.log", b"l"),
+                 c_status(), c_add([b"b"]), c_add([b"."]), c_status(), c_ls_files(False),
+                 W(b".goitignore", b"a\\Q\nx\\Ey\n\\E\n(?i)B\n[[:alpha:]]+\\.tmp\n\\pN\nx{2,1}\n(?P<n>z)\n\\C\n"), W(b"c", b"3"), c_status(), c_add([b"."]), c_ls_files(False),
+                 c_commit(b"c2"), c_status()]
+
+
+ORACLE_ONLY = {"newline-names", "invalid-ignore-lines", "quoting-ignore-lines"}
 
 DIRECTED = [
+    (("C13", "C17"), "inner-slash-ignore-lines", inner_slash_ignore_lines, "ignore lines with a slash in the middle and none at the end (Goit reads them as directory entries: text followed by anything)"),
+    (("C17", "C13"), "ignored-name-directory-became-file", ignored_name_directory_became_file, "a tracked directory whose name an extension entry matches is replaced by a plain file of that name: the file is excluded"),
+    (("C20", "C12"), "percent-config-values", percent_config_values, "configuration values containing % (and ending in %), local and global, then used as identity"),
+    (("C18",), "quoting-ignore-lines", quoting_ignore_lines, "ignore lines that are valid regular expressions alone but not once wrapped (\\Q without \\E), flags, classes (outside the model's ignore alphabet: oracle only)"),
     (("C10", "C18"), "branch-flag-combinations", branch_flag_combinations, "two modes of branch in one invocation (rename+delete, name+delete, list+rename, two names): always refused, nothing changes"),
     (("C17", "C13"), "blank-edged-ignore-entries", blank_edged_ignore_entries, "ignore entries whose directory name begins, or whose extension ends, with a blank"),
     (("C10", "C03"), "tmp-named-branches", tmp_named_branches, "branches named like Goit's own temporary and metadata files (X.tmp beside X, index, HEAD, config)"),
